@@ -24,6 +24,8 @@
 // the rest of the program of the horrors of portability.
 
 use crate::addr::NetAddr;
+#[cfg(erbium_verif)]
+use crate::sim::{mio, nix, tokio};
 use std::convert::TryFrom;
 use std::io;
 use std::net;
